@@ -6,23 +6,23 @@ Import ListNotations.
 Local Open Scope Z_scope.
 
 (* ---- the scheduler stays inside the model ---- *)
-Lemma lat_to_reach pf n : forall s t goal s' k, reach pf s -> lat_to n s t goal = Some (s', k) -> reach pf s'.
+Lemma lat_to_reach pf ent n : forall s t goal s' k, reach pf s -> lat_to ent n s t goal = Some (s', k) -> reach pf s'.
 Proof.
   induction n as [|n IH]; intros s t goal s' k R H; cbn [lat_to] in H.
   - destruct (goal (pcs s t)); [injection H as <- _; exact R|discriminate].
   - destruct (goal (pcs s t)); [injection H as <- _; exact R|].
-    induction (glatents s t) as [|x l IHl]; [discriminate|].
+    induction (if pc_idle (pcs s t) && negb ent then [] else glatents s t) as [|x l IHl]; [discriminate|].
     destruct (gstep s t x) as [s1|] eqn:E; [|exact (IHl H)].
-    destruct (lat_to n s1 t goal) as [[s2 k2]|] eqn:E2; [|exact (IHl H)].
+    destruct (lat_to ent n s1 t goal) as [[s2 k2]|] eqn:E2; [|exact (IHl H)].
     injection H as <- _. apply (IH s1 t goal s2 k2); [eapply reach_gstep; eauto|exact E2].
 Qed.
 
-Lemma settle_reach pf qs : forall ths s nl s' nl', reach pf s -> settle s qs ths nl = (s', nl') -> reach pf s'.
+Lemma settle_reach pf qs : forall ths ents s nl s' nl' ents', reach pf s -> settle s qs ents ths nl = (s', nl', ents') -> reach pf s'.
 Proof.
-  induction ths as [|t r IH]; intros s nl s' nl' R H; cbn [settle] in H; [injection H as <- _; exact R|].
-  destruct (lat_to LAT_DEPTH s t _) as [[s1 k]|] eqn:E.
-  - apply (IH s1 (nl + k) s' nl'); [eapply lat_to_reach; eauto|exact H].
-  - apply (IH s nl s' nl'); assumption.
+  induction ths as [|t r IH]; intros ents s nl s' nl' ents' R H; cbn [settle] in H; [injection H as <- _ _; exact R|].
+  destruct (lat_to (may_enter s qs ents t) LAT_DEPTH s t (next_goal t qs)) as [[s1 k]|] eqn:E.
+  - eapply IH; [eapply lat_to_reach; eauto|exact H].
+  - eapply IH; eauto.
 Qed.
 
 Lemma pick_step s qs : forall w ord seen t s', pick s qs ord seen w = Some (t, s') -> exists e, gstep s t e = Some s'.
@@ -35,12 +35,12 @@ Proof.
   injection H as <- <-. exists e. exact E.
 Qed.
 
-Theorem sched_reach pf : forall fuel w ths s qs ord done nl,
-  reach pf s -> reach pf (fst (fst (fst (fst (sched fuel w ths s qs ord done nl))))).
+Theorem sched_reach pf : forall fuel w ths s qs ents ord done nl,
+  reach pf s -> reach pf (fst (fst (fst (fst (sched fuel w ths s qs ents ord done nl))))).
 Proof.
-  induction fuel as [|f IH]; intros w ths s qs ord done nl R; cbn [sched];
-    destruct (settle s qs (firsts (ord ++ ths) []) nl) as [s0 nl0] eqn:ES;
-    pose proof (settle_reach pf qs _ s nl s0 nl0 R ES) as R0.
+  induction fuel as [|f IH]; intros w ths s qs ents ord done nl R; cbn [sched];
+    destruct (settle s qs ents (firsts (ord ++ ths) []) nl) as [[s0 nl0] ents0] eqn:ES;
+    pose proof (settle_reach pf qs _ _ s nl s0 nl0 ents0 R ES) as R0.
   - exact R0.
   - destruct ord as [|u r]; [exact R0|].
     destruct (pick s0 qs (u :: r) [] w) as [[t s']|] eqn:EP; [|exact R0].
@@ -48,8 +48,8 @@ Proof.
 Qed.
 
 (* what the checker relies on: the state whose words / counters `replay` reports is reachable in Block *)
-Corollary replay_reach pf w qs ord :
-  reach pf (fst (fst (fst (fst (sched (S (length ord)) w (map fst qs) (init_state pf) qs ord 0 0))))).
+Corollary replay_reach pf w qs ents ord :
+  reach pf (fst (fst (fst (fst (sched (S (length ord)) w (map fst qs) (init_state pf) qs ents ord 0 0))))).
 Proof. apply sched_reach. apply reach_init. reflexivity. Qed.
 
 (* ---- the boolean invariant holds of every reachable state ---- *)
@@ -203,7 +203,7 @@ Definition ex_qs : list (Z * list event) :=
           Bv DV_XCHG MO_RELAXED OFF_QUEUE 8 0 0 1]) ].
 Definition ex_ord : list Z := [7; 7; 7; 9; 9; 9; 9; 9; 8; 8; 8; 9; 9; 9; 9; 9; 11; 11; 11; 9; 9; 9; 9; 9; 9; 8; 8].
 Lemma demo_replay :
-  firstn 18 (replay false 8 ex_qs ex_ord) = [27; 0; 9; -1; 1; 1; 7; 1; 0; 0; 0; 1; 1; 1; 1; 1; 0; 1].
+  firstn 18 (replay false 8 ex_qs [11] ex_ord) = [27; 0; 9; -1; 1; 1; 7; 1; 0; 0; 0; 1; 1; 1; 1; 1; 0; 1].
 Proof. vm_compute. reflexivity. Qed.
 
 (* ---- standing negative tests (audit F8): observation sequences that the per-thread automaton accepts one by one
@@ -225,8 +225,8 @@ Definition neg4_qs : list (Z * list event) :=
           Gv DV_ADD MO_RELEASE 0 8 4294967292 4; Bv DV_XCHG MO_RELAXED OFF_QUEUE 8 0 0 1]) ].
 Lemma negative_replays :
   conform 8 false [Uv DVU_CALL OP_TESTCANCEL 0; Uv DVU_RET 1 0] = (-1, 1) /\       (* accepted per thread ... *)
-  nth 1 (replay false 8 neg1_qs [8; 8]) 0 = 1 /\                                     (* ... refused by the global model *)
-  nth 1 (replay false 8 neg2_qs [7; 7; 7; 11; 11; 11]) 0 = 3 /\
-  nth 1 (replay false 8 neg3_qs [6; 6; 6; 5; 5; 5; 5; 5; 5]) 0 = 5 /\
-  nth 1 (replay false 8 neg4_qs [11; 11; 11; 11; 11]) 0 = 5.
+  nth 1 (replay false 8 neg1_qs [] [8; 8]) 0 = 1 /\                                     (* ... refused by the global model *)
+  nth 1 (replay false 8 neg2_qs [11] [7; 7; 7; 11; 11; 11]) 0 = 3 /\
+  nth 1 (replay false 8 neg3_qs [] [6; 6; 6; 5; 5; 5; 5; 5; 5]) 0 = 5 /\
+  nth 1 (replay false 8 neg4_qs [11] [11; 11; 11; 11; 11]) 0 = 5.
 Proof. vm_compute. repeat split. Qed.
